@@ -1,15 +1,18 @@
 package sim
 
 import (
+	"errors"
 	"fmt"
 	"strings"
 	"time"
 
 	ouroboros "github.com/blinklabs-io/gouroboros"
 	"github.com/blinklabs-io/gouroboros/ledger"
+	"github.com/blinklabs-io/gouroboros/protocol"
 	"github.com/blinklabs-io/gouroboros/protocol/blockfetch"
 	"github.com/blinklabs-io/gouroboros/protocol/chainsync"
 	pcommon "github.com/blinklabs-io/gouroboros/protocol/common"
+	"github.com/blinklabs-io/gouroboros/protocol/leiosnotify"
 	"github.com/blinklabs-io/gouroboros/protocol/txsubmission"
 	rt "github.com/blinklabs-io/gouroboros/verifsimrt"
 )
@@ -300,7 +303,18 @@ func advCallsSetup(s *rt.Sim, tier string) func() {
 				return nil, nil
 			}),
 		)
-		opts := append(co.options(pair.A), ouroboros.WithChainSyncConfig(csCfg), ouroboros.WithBlockFetchConfig(bfCfg), ouroboros.WithTxSubmissionConfig(txCfg))
+		// leios-notify application whose callback fails at its second notification, after a
+		// moment in which the next (pipelined) notification can arrive
+		lnCalls := 0
+		lnCfg := leiosnotify.NewConfig(leiosnotify.WithNotificationFunc(func(ctx leiosnotify.CallbackContext, m protocol.Message) error {
+			lnCalls++
+			if lnCalls >= 2 {
+				sleep(oneOf("op", time.Millisecond, 200*time.Millisecond, 2*time.Second))
+				return errors.New("harness: the application cannot use this notification")
+			}
+			return nil
+		}))
+		opts := append(co.options(pair.A), ouroboros.WithChainSyncConfig(csCfg), ouroboros.WithBlockFetchConfig(bfCfg), ouroboros.WithTxSubmissionConfig(txCfg), ouroboros.WithLeiosNotifyConfig(lnCfg))
 		peer := newRawPeer(pair.B)
 		var conn *ouroboros.Connection
 		var cErr error
@@ -396,6 +410,15 @@ func advCallsSetup(s *rt.Sim, tier string) func() {
 					}
 					sleep(oneOf("op", time.Second, 20*time.Second))
 					return c.BlockFetch().Client.Stop()
+				}},
+				apiCall{"leiosnotify.Sync+failing-callback", "leiosnotify", specLeiosNotify, leiosnotify.ProtocolId, func(c *ouroboros.Connection) error {
+					if err := c.LeiosNotify().Client.Sync(); err != nil {
+						return err
+					}
+					for i := 0; i < 120 && lnCalls < 2; i++ {
+						sleep(time.Second)
+					}
+					return nil
 				}},
 				apiCall{"txsubmission.client.blocking-callback", "txsubmission", specTxSubmission, 4, func(c *ouroboros.Connection) error {
 					// the outbound side opens the protocol; the responder then sends requests, and a
